@@ -38,7 +38,7 @@ CLAIMED = {
  "C16": C("Admission.marshal, Admissions.marshal, ProfessionInfo.marshal (partialMarshallStruct inlined, its reflection and struct tags evaluated) and makeExplicit are proved to compose the CommonPKI AdmissionSyntax TLV by TLV with the tag strings of the specification; the v1 convert functions are proved to carry every configured field and GeneralName kind.",
            "Field encoders inside encoding/asn1 are assumed." + COMMON, "6 (C16)"),
  "C17": C("marshalECPrivateKeyWithOID is proved to emit RFC 5915 ECPrivateKey version 1 with the scalar as exactly ceil(bitlen(n)/8) big-endian octets (leading zeros kept), the curve OID and the uncompressed point; MarshalPKCS8PrivateKey to wrap it (or the PKCS#1 key with NULL parameters) under the right algorithm identifier and the named-curve OID of a table proved on the executed initializers; parseECPrivateKey/ParsePKCS8PrivateKey/namedCurveFromOID are proved to read those fields back (scalar value, zero padding accepted, range check against the curve order, curve by OID for all ten curves) and to reject anything else with an error.",
-           "The byte-level round trip composes these per-function contracts with asn1.Marshal/Unmarshal being inverse on the two structs (assumed) - a paper step; ReadPem's block scan is proved against specs/pem.smt2 with pem.Decode assumed; struct declarations are pinned by shape obligations; big.Int and elliptic-curve arithmetic are spec functions." + COMMON, "6 (C17)"),
+           "The round trip is composed by the verifier itself: verifRoundTripEC/verifRoundTripRSA (verif-tagged, never called) are proved to return the same curve, scalar and point (EC) resp. the same PKCS#1 key (RSA) for every valid key, from the two contracts and the stated axiom that asn1.Unmarshal undoes asn1.Marshal on the two key containers (specs/rt.smt2); ReadPem's block scan is proved against specs/pem.smt2 with pem.Decode assumed; struct declarations are pinned by shape obligations; big.Int and elliptic-curve arithmetic are spec functions." + COMMON, "6 (C17)"),
  "C18": C("IsConsistent is proved to compare NumEntities with the size of the breadth-first closure of the root list under GetSubscribers (loop invariant against the recursive spec bfs), so dangling issuers, cycles and self-loops (never reached from a root) make it false; importCertConfigFile is proved to derive the alias (explicit or base name without suffix), to refuse a second configuration of the same alias, and to file the entity under roots or under its issuer's subscribers; the sign closure is proved to reach BulkUpdate only after Open succeeded; write frame as in C10.",
            "Partial: importFiles' directory walk and suffix filter are not under contract (fs.WalkDir callbacks); that bfs-count equality characterises forests is the textbook lemma." + COMMON, "6 (C18)"),
  "C20": C("Safety sweep: every index, slice, nil dereference, type assertion, lossy conversion and explicit panic in all functions under contract is an obligation discharged for all inputs satisfying the stated preconditions; preconditions are obligations at in-repo call sites.",
@@ -80,7 +80,7 @@ def main():
         "setup_cmd": "cd /verif/engine && GOFLAGS=-mod=vendor GOPROXY=off GOSUMDB=off GOTOOLCHAIN=local go build -o /verif/bin/verif .",
         "hooks": {
             "guard": "verif",
-            "enable": "go build -tags verif (the guarded files contracts_verif.go contain comments only: the //@ contract lines read by /verif/bin/verif)",
+            "enable": "go build -tags verif (the guarded files contracts_verif.go contain comments only: the //@ contract lines read by /verif/bin/verif; generator/cert/roundtrip_verif.go holds two functions that are never called and exist so that the verifier composes the PKCS#8 write and read contracts)",
             "baseline_off_cmd": "cd /repo && GOFLAGS=-mod=mod GOPROXY=off GOSUMDB=off go test -json -vet=off -count=1 -timeout 25m ./...",
             "source_commits": hook_commits,
             "add_only": True,
